@@ -7,7 +7,7 @@ from ..gen import J, JI
 
 PROP = "C02"
 HOSTILE = ('scale', 'special')
-MONITORS = ("WF", "DENS")
+MONITORS = ("WF", "DENS", "FORM")
 REQUIRED_MONITORS = ("DENS",)
 ANCHORS = [("measure.py", "GaussianMeasure.compute_lnZ"),
            ("measure.py", "GaussianMeasure.log_integral_light"),
